@@ -203,6 +203,12 @@ def h03b(a0: int, a1: int, b0: int, b1: int, c0: int, t0: int, t1: int, rel: boo
 
 
 def h03b_pre(a0, a1, b0, b1, c0, t0, t1, rel):
+    free = S("free")  # which of the five label octets are symbolic in this shard; the others are pinned
+    pins = {"a0": 120, "a1": 121, "b0": 120, "b1": 121, "c0": 121}
+    vals = {"a0": a0, "a1": a1, "b0": b0, "b1": b1, "c0": c0}
+    for k in pins:
+        if k not in free and vals[k] != pins[k]:
+            return False
     return all([0 <= x <= 255 for x in (a0, a1, b0, b1, c0)]) and 0 <= t0 <= 2**31 - 1 and 0 <= t1 <= 2**31 - 1
 
 
@@ -311,10 +317,12 @@ HARNESSES = [
                      "dns.rdataset.Rdataset.to_wire"],
             bound="one field symbolic per shard, the rest pinned: id (16 bit) | flags (16 bit) | rcode (21 boundary values up to 4095; finite selection) | answer TTL (0..2^31-1) | EDNS version (7 boundary values; finite selection) | EDNS flags (9 values; finite selection) | payload (16 bit) | one option (3 codes, <= 2 octets); opcode per shard (quick QUERY, UPDATE; thorough 0..15)",
             stubs=["E1", "E5", "E6", "E8", "E12"], outside="several options; TSIG (C14)"),
-    Harness("H03b", h03b, h03b_pre, lambda tier: [{"layout": i, "_timeout": 1200, "_path_timeout": 60} for i in ((0, 1) if tier == "quick" else (0, 1, 2))],
+    Harness("H03b", h03b, h03b_pre, lambda tier: [{"layout": i, "free": f, "_timeout": 1500, "_path_timeout": 60} for i in ((0, 1) if tier == "quick" else (0, 1, 2))
+                                                   for f in ((["a1", "b1", "c0"], ["a0", "b0", "b1"], ["a0", "a1", "c0"]) if tier == "quick" else
+                                                             (["a1", "b1", "c0"], ["a0", "b0", "b1"], ["a0", "a1", "c0"], ["a0", "a1", "b0", "b1"], ["a1", "b0", "b1", "c0"]))],
             kind="universal", encodes=["dns.name.Name.to_wire", "dns.renderer.Renderer.add_rrset", "dns.renderer.Renderer.add_question",
                                        "dns.rdtypes.mxbase.MXBase._to_wire", "dns.rdtypes.nsbase.NSBase._to_wire", "dns.message.Message.find_rrset"],
-            bound="question + MX rrset + NS rrset whose owner / target names are 1-2 symbolic one-octet labels over ex. (every coincidence pattern incl. case-only); 2 (3) section layouts; relative names with origin or absolute; TTLs symbolic",
+            bound="question + MX rrset + NS rrset whose owner / target names are 1-2 one-octet labels over ex.; 3 of the 5 label octets symbolic per shard (thorough: 4), the others pinned to values that coincide (every coincidence pattern among the free octets and with the pinned ones, incl. case-only); 2 (3) section layouts; relative names with origin or absolute; TTLs symbolic",
             stubs=["E1", "E5", "E6", "E8"], outside="> 3 names; other rdata types (their wire form is C02)"),
     Harness("H03d", h03d, h03d_pre, h03d_shards, kind="finite selection with universal TTL",
             encodes=["dns.update.UpdateMessage.add", "dns.update.UpdateMessage.delete", "dns.update.UpdateMessage.replace", "dns.update.UpdateMessage.present",
